@@ -109,7 +109,7 @@ def readAll (fs : String → FsEntry) : List String → Option (List Xml)
 def cliFail : MergeCli := ⟨2, none, none⟩
 
 /-- the part of `do_merge` after the files have been read -/
-def mergeResult (docs : List Xml) (outfile : Option String) (incomplete nonStrict : Bool) : MergeCli :=
+def mergeResult (docs : List Xml) (outfile : Option (String × Bool)) (incomplete nonStrict : Bool) : MergeCli :=
   match (collection docs incomplete (!nonStrict)).err, (collection docs incomplete (!nonStrict)).run with
   | none, some run =>
     match run.err with
@@ -117,12 +117,17 @@ def mergeResult (docs : List Xml) (outfile : Option String) (incomplete nonStric
     | none =>
       match outfile with
       | none => ⟨0, some (serialize run.ro), none⟩
-      | some o => ⟨0, some ("Writing merged running order to " ++ o), some (serialize run.ro)⟩
+      | some o =>
+        -- `open(outfile, 'w')` comes first: when the path cannot be opened (a directory, a missing
+        -- parent, no permission) the OSError reaches `CLI.__call__`, which reports it and returns 2
+        if o.2 then ⟨0, some ("Writing merged running order to " ++ o.1), some (serialize run.ro)⟩
+        else cliFail
   | _, _ => cliFail                          -- UnknownMosFileType / InvalidMosCollection / …
 
 /-- `mosromgr merge -f files… [-o out] [-i] [-n]` (cli.py l.249-285): status 2 with a message on
-    stderr on any error, otherwise the serialisation of the merged collection -/
-def cliMerge (fs : String → FsEntry) (files : List String) (outfile : Option String)
+    stderr on any error, otherwise the serialisation of the merged collection.  The outfile comes
+    with the one fact about it that matters: whether it can be opened for writing. -/
+def cliMerge (fs : String → FsEntry) (files : List String) (outfile : Option (String × Bool))
     (incomplete nonStrict : Bool) : MergeCli :=
   if files.isEmpty then cliFail else
   match readAll fs files with
